@@ -113,7 +113,7 @@ def check_c07(ctx, job, top):
                     a, b = it["a"], it["b"]
                     if (m, a) not in ctx.model.pos or (m, b) not in ctx.model.pos:
                         continue
-                    if (m, a) not in generated and (m, b) not in generated:
+                    if (m, a) not in generated or (m, b) not in generated:
                         continue
                     avg, _ = _avg_pair_size(ctx, top, ti)
                     dist = float(np.linalg.norm(_min_image(ctx.model.pos[(m, a)] - ctx.model.pos[(m, b)], box)))
@@ -123,7 +123,7 @@ def check_c07(ctx, job, top):
                                                     f"{it['d']} +- {it['tol']} (+ mean pair size {avg:.4f})")
                 elif kind == "pers":
                     a, b = it["start"], it["stop"]
-                    if (m, a) not in ctx.model.pos or (m, b) not in ctx.model.pos or (m, b) not in generated:
+                    if (m, a) not in generated or (m, b) not in generated:
                         continue
                     restr = mol.nodes[b].get("distance_restraints") or []
                     lows = [lo for (ref, up, lo) in restr if ref == a]
@@ -154,8 +154,8 @@ def check_c07(ctx, job, top):
         if len(closing) != 1:
             continue
         a, b = closing[0]
-        if (m, a) not in generated and (m, b) not in generated:
-            continue
+        if any((m, n) not in generated for n in mol.nodes):
+            continue      # a partially supplied ring may be impossible to close: only fully generated rings are judged
         avg, _ = _avg_pair_size(ctx, top, ti)
         dist = float(np.linalg.norm(_min_image(ctx.model.pos[(m, a)] - ctx.model.pos[(m, b)], box)))
         ctx.probe("cycle_checked")
